@@ -40,6 +40,10 @@ def run(ctx):
     ctx.rule('C09.LOOPONLY', lambda: rule_looponly(ctx), 2)
     ctx.rule('C09.HANDOVER', lambda: rule_refresh_handover(ctx), 3)
     ctx.rule('C09.ITER', lambda: rule_iter(ctx), 3)
+    # every refresh ends in api.on_mempool(), i.e. in the Notifications join: an exception there is an exception of the refresh
+    # ("the refresh never raises"), so the join's discipline is a necessary condition here too
+    from . import c20 as _c20
+    ctx.rule('C20', lambda: _c20._run(ctx))
     # "reaches the exact view of C08": the clauses of the view that do not depend on the refresh being quiet
     ctx.rule('C09.VIEW', lambda: c08.rule_liveflag(ctx) + c08.rule_sign(ctx) + c08.rule_fee(ctx), 4)
     ctx.rule('C09.VIEW2', lambda: c08.rule_positional(ctx) + c08.rule_merge(ctx), 4)
@@ -384,6 +388,26 @@ def rule_none(ctx):
     ok = len(guards) == 1 and bool(users) and all(lcfg.dominates(lcfg.node(guards[0]), lcfg.node(u)) for u in users)
     ctx.check(ok, 'C09.NONE', ctx.key(lo, None, 'no hashX found'), 'a prevout for which phase one found no row is answered None',
               'a prevout without a phase-one hit is not answered None first', loc=ctx.loc(lo, lo.node))
+    n += 1
+    # 2b. every answer of phase one - a hit or a miss - comes from the table scan of THIS call: a miss remembered from an
+    # earlier refresh (a negative cache, a "seen" set) answers for rows that may have been committed since; the prevout is
+    # then reported unknown on every refresh and its spender never enters the view
+    hcfg = ctx.cfg(_lh)
+    scans = [s_ for s_ in _lh.own_nodes() if isinstance(s_, (ast.For, ast.Assign, ast.Expr)) and any(
+        isinstance(c_, ast.Call) and isinstance(c_.func, ast.Attribute) and c_.func.attr in ('iterator', 'get')
+        and ctx.res.type_of(c_.func.value, _lh) == ('store', 'UTXO') for c_ in ast.walk(s_.iter if isinstance(s_, ast.For) else s_))]
+    rets_h = [r_ for r_ in _lh.own_nodes() if isinstance(r_, ast.Return)]
+    okh = bool(scans) and bool(rets_h)
+    early = []
+    if okh:
+        sn = {hcfg.node(s_) for s_ in scans}
+        for r_ in rets_h:
+            if pr.path_avoiding(hcfg, [hcfg.entry], [hcfg.node(r_)], sn) is not None:
+                early.append(f'line {r_.lineno}: `{norm(r_)}`')
+    ctx.check(okh and not early, 'C09.NONE', ctx.key(_lh, None, 'answered from the table scan'),
+              'every answer of the prevout look-up is reached through the scan of the h table',
+              f'the prevout look-up can answer without consulting the table ({early}): a remembered miss outlives the commit that '
+              'makes the row visible', loc=ctx.loc(_lh, _lh.node))
     n += 1
     # 3. raw transactions may be missing
     fao = ctx.func('mp', 'MemPool._fetch_and_accept')
